@@ -355,7 +355,7 @@ def native(rp: dict, inputs: dict, tool: str):
 
 
 def record(pid, unit, clause, trace, cex, hres, repo_copy):
-    d = os.path.join(VERIF, "replays", pid)
+    d = os.path.join(os.environ.get("VERIF_REPLAY_DIR", os.path.join(VERIF, "replays")), pid)
     os.makedirs(d, exist_ok=True)
     fn = re.sub(r"[^A-Za-z0-9_.-]", "_", f"{unit.name}__{clause}")[:150] + ".json"
     path = os.path.join(d, fn)
